@@ -13,7 +13,7 @@ Section CoreRun.
   Variable AND : bool.
 
   Lemma do_action_frozen s l a : frozen mx (do_action q blanks AND s l a) = frozen mx s.
-  Proof. destruct a as [? ?|? ?|? ?|? ?|? ?|? ?|g]; cbn; try (destruct (rev _)); cbn; auto. destruct g; cbn; try (destruct (dget _ _ _) as [[]|]); try (destruct (is_blank_text _)); cbn; auto. Qed.
+  Proof. destruct a as [? ?|? ?|? ?|? ?|? ?|? ?|g]; cbn; try (destruct (rev _)); cbn; auto. destruct g; cbn; try (destruct (dget _ _ _) as [[]|]); try (destruct (is_blank_text _)); try (destruct (none_like _)); cbn; auto. Qed.
   Lemma eval_frozen c s l : frozen mx (fst (eval q blanks AND c s l)) = frozen mx s.
   Proof.
     destruct c as [b|a|b a|g]; cbn; auto using do_action_frozen.
@@ -82,6 +82,7 @@ Section CoreRun.
       try (cbn [fst x with_mx]; first [reflexivity | apply dget_dset_other_dict; intros E0; apply Hw; rewrite E0; reflexivity]).
     - destruct (dget (x mx s) nm (hdr_key l i)) as [[z'|z'|t|]|]; cbn [fst x with_mx]; try reflexivity;
         apply dget_dset_other_dict; intros E0; apply Hw; rewrite E0; reflexivity.
+    - destruct (none_like _); reflexivity.
     - destruct (is_blank_text (tally_text l i)); cbn [fst x with_mx]; [reflexivity|].
       apply dget_dset_other_dict; intros E0; apply Hw; rewrite E0; reflexivity.
   Qed.
@@ -199,6 +200,7 @@ Section CoreRun.
     intros Hw. destruct g as [i|nm i|nm i n|nm k|nm e|nm i e|nm key' e|i|i j|nm e|nm k0 n0|v0 nm c0]; cbn [do_agg]; try reflexivity;
       try (cbn [fst x with_mx vars dset]; apply lookup_update_other; exact Hw).
     - destruct (dget (x mx s) nm (hdr_key l i)) as [[z'|z'|t|]|]; reflexivity.
+    - destruct (none_like _); cbn [fst x with_mx vars]; apply lookup_update_other; exact Hw.
     - destruct (is_blank_text (tally_text l i)); reflexivity.
   Qed.
 
@@ -326,7 +328,7 @@ Section CoreRun.
     pose proof (sum_step q blanks AND s1 l nm (NHdr i)) as T. cbn zeta in T. destruct T as (T1 & _).
     change (eval q blanks AND (CAgg (Sum nm (NHdr i))) s1 l) with (do_agg q blanks AND s1 l (Sum nm (NHdr i))).
     destruct (do_agg q blanks AND s1 l (Sum nm (NHdr i))) as [s2 v] eqn:Ed. cbn [fst] in T1.
-    rewrite seq_eval_frame_var by exact Hpost. rewrite T1. cbn [num_of]. rewrite H1, He, neval_hdr. reflexivity.
+    rewrite seq_eval_frame_var by exact Hpost. rewrite T1. rewrite H1, He, neval_hdr. reflexivity.
   Qed.
 
   Definition total_of (i : nat) (lines : list (Z * line ustring)) : Z := fold_right (fun nl acc => cell_num (snd nl) i + acc) 0 lines.
